@@ -21,12 +21,13 @@ DECL = {
     5: ('org.v.I1', 'ratio', 'd', 'readwrite', 'false', 'ratio', False),
     6: ('org.v.I2', 'flag', 'b', 'readwrite', 'true', 'flag', False),
     # interface + name spell the same string as declaration 3 ('org.v.I1' + 'name'): two different properties
-    7: ('org.v.I1n', 'ame', 's', 'readwrite', 'false', 'ame', False),
+    # (an array of strings: its values include arrays of exactly one element)
+    7: ('org.v.I1n', 'ame', 'as', 'readwrite', 'false', 'ame', False),
 }
 # zero, the empty string and False are values like any other
 CONCRETE = {'i': [9, 10, 0, 12], 'u': [0, 20, 21, 22], 's': ['n0', '', 'n2', 'n3'], 'y': [0, 1, 2, 3],
-            'd': [0, 5, 2.5, 7], 'b': [False, True, False, True]}
-WRAP = {'i': marshal.Int32, 'u': marshal.UInt32, 's': str, 'y': marshal.Byte, 'd': float, 'b': marshal.Boolean}
+            'd': [0, 5, 2.5, 7], 'b': [False, True, False, True], 'as': [['n0'], ['a', 'b'], ['c'], ['n3', '']]}
+WRAP = {'i': marshal.Int32, 'u': marshal.UInt32, 's': str, 'y': marshal.Byte, 'd': float, 'b': marshal.Boolean, 'as': list}
 
 
 def concrete(p, v):
@@ -137,6 +138,10 @@ def variant_sigs(raw_body, sig):
             pos += (4 - pos % 4) % 4
             n2 = struct.unpack('<I', raw_body[pos:pos + 4])[0]
             pos += 4 + n2 + 1
+        elif vs == 'as':
+            pos += (4 - pos % 4) % 4
+            n2 = struct.unpack('<I', raw_body[pos:pos + 4])[0]
+            pos += 4 + n2
         elif size:
             pos += (size - pos % size) % size
             pos += size
